@@ -8,11 +8,13 @@
 package wts
 
 import (
+	"bytes"
 	"context"
 	"encoding/hex"
 	"fmt"
 	"io"
 	"os"
+	"runtime"
 	"sort"
 	"strconv"
 	"strings"
@@ -524,27 +526,85 @@ func (w *World) Unpark() {
 // durably blocked and no byte still travelling on the simulated network.
 func (w *World) Settle() {
 	quiet := 0
-	// at least 10 us per round: the runtime may have put a goroutine to sleep
-	// for 1 us (spin guard, rt/mkpatch.py) at a busy instant. A round counts as
-	// quiet only if nothing is in flight AND no event was logged since the
-	// previous round (a frame ping-pong at one virtual instant keeps logging).
+	// A round counts as quiet only if nothing is in flight, no event was logged
+	// since the previous round (a frame ping-pong at one virtual instant keeps
+	// logging) and no goroutine sits in a sleep that the runtime's spin guard
+	// injected at a busy instant (rt/mkpatch.py: escalating 1us<<3k sleeps; such
+	// a goroutine looks durably blocked to synctest.Wait although it has work).
 	step := time.Duration(w.net.Cfg.LatencyNs+w.net.Cfg.DialDelayNs) + 10*time.Microsecond
 	if w.net.Cfg.StallPct > 0 {
 		step += time.Duration(w.net.Cfg.StallNs)
 	}
 	last := uint64(0)
-	for i := 0; i < 20000 && quiet < 4; i++ {
+	for i := 0; i < 20000; i++ {
 		synctest.Wait()
 		d := w.net.InFlightDelay()
-		if d <= 0 && w.e.Seq == last {
+		sp := spinSleeping()
+		if d <= 0 && w.e.Seq == last && sp == 0 {
 			quiet++
+			if quiet >= 4 {
+				// runtime.Stack stops the world and may leave a preemption request on
+				// this goroutine: absorb it here, then make sure nothing has moved
+				time.Sleep(time.Nanosecond)
+				synctest.Wait()
+				if w.e.Seq == last && w.net.InFlightDelay() <= 0 {
+					return
+				}
+				quiet = 0
+			}
 		} else {
 			quiet = 0
 		}
 		last = w.e.Seq
-		time.Sleep(d + step)
+		time.Sleep(d + step + sp)
 	}
 	synctest.Wait()
+	w.e.Probe("settle_gave_up")
+}
+
+var stackBuf = make([]byte, 1<<20)
+
+// spinSleeping returns the longest remaining-style duration of a spin-guard
+// sleep some bubble goroutine is in (0: none). In a traceback such a sleep is
+// time.Sleep(d) with d = 1000<<(3*level) ns; a scripted sleep of exactly such a
+// duration is mistaken for one, which only postpones the quiescent point.
+func spinSleeping() time.Duration {
+	n := runtime.Stack(stackBuf, true)
+	b := stackBuf[:n]
+	var longest time.Duration
+	for len(b) > 0 {
+		i := bytes.Index(b, []byte("\n\n"))
+		g := b
+		if i >= 0 {
+			g, b = b[:i], b[i+2:]
+		} else {
+			b = nil
+		}
+		nl := bytes.IndexByte(g, '\n')
+		if nl < 0 {
+			continue
+		}
+		hdr, rest := g[:nl], g[nl+1:]
+		if !bytes.Contains(hdr, []byte("[sleep")) || !bytes.Contains(hdr, []byte("synctest bubble")) || !bytes.HasPrefix(rest, []byte("time.Sleep(0x")) {
+			continue
+		}
+		var v int64
+		for _, c := range rest[len("time.Sleep(0x"):] {
+			if c >= '0' && c <= '9' {
+				v = v<<4 | int64(c-'0')
+			} else if c >= 'a' && c <= 'f' {
+				v = v<<4 | int64(c-'a'+10)
+			} else {
+				break
+			}
+		}
+		for lv := 0; lv <= 8; lv++ {
+			if v == 1000<<(3*lv) && time.Duration(v) > longest {
+				longest = time.Duration(v)
+			}
+		}
+	}
+	return longest
 }
 
 // Teardown closes the peers and the server and waits for every goroutine.
